@@ -414,8 +414,10 @@ pub fn run_c13(ctx: &mut Ctx, _known: &Known) {
         // examples: generated documents (matching or not), the empty mapping, non-mapping entries
         c.tps.clear();
         c.tns.clear();
-        let ntp = r.below(4);
-        let ntn = r.below(4);
+        // now and then LONG example lists (beyond 64, 128, 256 entries), failing ones anywhere
+        let long = i % 25 == 7;
+        let ntp = if long { *r.pick(&[64usize, 65, 70, 130, 260]) } else { r.below(4) };
+        let ntn = if long { *r.pick(&[0usize, 3, 65, 129, 257]) } else { r.below(4) };
         for _ in 0..ntp {
             c.tps.push(example(&mut r));
         }
